@@ -311,8 +311,17 @@ class Gen:
         if k < 0.96:
             self.count("end:badjump")
             return [("push", r.choice([0, 1, 3, 0xFFFF])), "JUMP"]
-        self.count("end:underflow")
-        return ["POP", "POP", "POP"]
+        if k < 0.98:
+            self.count("end:underflow")
+            return ["POP", "POP", "POP"]
+        if r.random() < 0.5:
+            # a byte that is no instruction at all: the EVM halts exceptionally
+            self.count("end:undefined-byte")
+            return [("raw", bytes([r.choice([0x0C, 0x21, 0x4B, 0xB0, 0xEF])]))]
+        # an instruction of the EVM that neither halmos nor the reference model implements: the exploration of this path
+        # is incomplete and must be reported as such (stuck), never as a halt
+        self.count("end:unmodelled-instruction")
+        return [("push", r.randrange(3)), ("raw", bytes([r.choice([0x49, 0xFF])]))] if r.random() < 0.6 else [("raw", b"\x4a")]
 
     def finish(self, items):
         for mark, blob in self.blobs:
